@@ -341,5 +341,19 @@ def run(ctx):
         short = rec.replace('cppcms::archive_traits', 'traits').replace('std::basic_string<char>', 'string')
         ctx.check(isv is not None and isv == ilv and isv[1] >= 1, R3, '%s:save/load-chunk-ops-agree' % short,
                   'save performs %s chunk operations per path, load %s (loop bodies counted once)' % (isv, ilv), l.where, detail={'save': isv, 'load': ilv})
-    ctx.floor(R3, 40)
+    # smart-pointer traits (two macros of archive_traits.h, instantiated for the six pointer types in the analysis-only unit): load leaves the destination as saved on
+    # every path - reset / null when the archive says "empty", a fresh object otherwise; a destination that keeps its old target reads a saved null back as non-null
+    ploads = sorted([f for f in P.fns.values() if f.brecord == 'cppcms::archive_traits' and f.short == 'load' and f.body is not None and len(f.params) == 2 and
+                     'c19w::node>' in (f.record or '')], key=lambda g: g.id)
+    ctx.require(len(ploads) >= 6 or ctx.violations, 'C19.R3: smart-pointer archive_traits loaders not found (%d)' % len(ploads))
+    for f in ploads:
+        dref = q.param_by_index(f, 0)
+        wr = [i for i in f.all_nodes() if (f.N(i)['k'] == 'CXXMemberCallExpr' and q.short_of(f.callee(i) or '') == 'reset' and f.obj(i) is not None and f.ref_of(f.obj(i)) == dref) or
+              (f.N(i)['k'] in ('CXXOperatorCallExpr', 'BinaryOperator') and f.N(i).get('op') == '=' and f.ref_of((f.args(i) if f.N(i)['k'] == 'CXXOperatorCallExpr' else f.N(i)['ch'])[0]) == dref)]
+        news = [i for i in f.all_nodes() if f.N(i)['k'] == 'CXXNewExpr']
+        rd = [i for i in f.calls() if q.short_of(f.callee(i) or '') == 'read_chunk']
+        ok_ = len(wr) >= 2 and bool(news) and bool(rd) and q.always_before_exit(f, wr) and any(not any(f.contains(w_, n_) for n_ in news) for w_ in wr)
+        ctx.check(ok_, R3, '%s:load-assigns-the-destination-on-every-path' % (f.record or '').replace('cppcms::archive_traits', 'traits').replace('c19w::node', 'V'),
+                  'a path through load leaves the destination pointer as it was (a saved null pointer loads back as whatever the destination held), or there is no path that nulls it', f.where)
+    ctx.floor(R3, 46)
     ctx.stats['trait_pairs'] = n_pairs
